@@ -4,6 +4,7 @@ import (
 	"bytes"
 	"errors"
 	"fmt"
+	"io"
 	"log"
 
 	"github.com/jcmturner/gokrb5/v8/crypto"
@@ -93,6 +94,10 @@ func (pac *PACType) Unmarshal(b []byte) (err error) {
 // ProcessPACInfoBuffers processes the PAC Info Buffers.
 // https://msdn.microsoft.com/en-us/library/cc237954.aspx
 func (pac *PACType) ProcessPACInfoBuffers(key types.EncryptionKey, l *log.Logger) error {
+	if l == nil {
+		// No logger configured (the default service settings): discard diagnostics.
+		l = log.New(io.Discard, "", 0)
+	}
 	for _, buf := range pac.Buffers {
 		// The buffer must lie inside the PAC data.
 		if buf.Offset > uint64(len(pac.Data)) || uint64(buf.CBBufferSize) > uint64(len(pac.Data))-buf.Offset {
